@@ -112,3 +112,77 @@ func C07Scalar(t *rapid.T, label string) ([]byte, string) {
 func C07ClampedWrongWay(k []byte) bool {
 	return k[0]&7 != 0 || k[31]&0x80 != 0 || k[31]&0x40 == 0
 }
+
+// C07EngineeredPair builds a (scalar, u) pair whose X25519 OUTPUT has a chosen
+// shape: the output r is picked first (64-bit or 32-bit words that XOR to
+// zero, leading / trailing zero bytes, all bytes equal), then
+// u = u([k^-1 mod L]R) for the torsion-free curve point R with u(R) = r.
+// Uniform inputs produce such outputs with probability 2^-64..2^-8; output
+// predicates (the all-zero test of the checked entry point, early exits) are
+// only exercised meaningfully by them.  ok=false if no suitable r was found.
+func C07EngineeredPair(t *rapid.T, label string) (k, u []byte, cls string, ok bool) {
+	k, _ = C07Scalar(t, label+"_k")
+	kc := append([]byte(nil), k...)
+	kc[0] &= 248
+	kc[31] &= 127
+	kc[31] |= 64
+	kk := ref.SMod(ref.FromLE(kc))
+	if kk.Sign() == 0 {
+		return nil, nil, "", false
+	}
+	shape := rapid.IntRange(0, 4).Draw(t, label+"_shape")
+	seed := rapid.Uint64().Draw(t, label+"_seed")
+	for try := uint64(0); try < 48; try++ {
+		b := Expand(seed+try*0x9e37, 32)
+		switch shape {
+		case 0: // 64-bit words XOR to zero
+			for i := 0; i < 8; i++ {
+				b[24+i] = b[i] ^ b[8+i] ^ b[16+i]
+			}
+			cls = "output:xor64=0"
+		case 1: // 32-bit words XOR to zero
+			for i := 0; i < 4; i++ {
+				x := byte(0)
+				for w := 0; w < 7; w++ {
+					x ^= b[4*w+i]
+				}
+				b[28+i] = x
+			}
+			cls = "output:xor32=0"
+		case 2: // leading zero bytes
+			n := 1 + int(b[31])%8
+			for i := 0; i < n; i++ {
+				b[i] = 0
+			}
+			cls = "output:leading-zeros"
+		case 3: // trailing zero bytes
+			n := 1 + int(b[0])%8
+			for i := 0; i < n; i++ {
+				b[31-i] = 0
+			}
+			cls = "output:trailing-zeros"
+		default: // all bytes equal
+			v := b[0] & 0x7f
+			for i := range b {
+				b[i] = v
+			}
+			cls = "output:all-bytes-equal"
+		}
+		if b[31]&0x80 != 0 {
+			// keep the XOR relations: flip the top bit in two words
+			b[31] ^= 0x80
+			b[7] ^= 0x80
+		}
+		r := ref.FromLE(b)
+		if r.Cmp(ref.P) >= 0 || r.Sign() == 0 {
+			continue
+		}
+		R, onCurve := ref.FromMontgomeryU(r, 0)
+		if !onCurve || !ref.IsTorsionFree(R) || R.IsIdentity() {
+			continue
+		}
+		U := ref.Mul(ref.SInv(kk), R)
+		return k, ref.FEncode(U.MontgomeryU()), cls, true
+	}
+	return nil, nil, "", false
+}
